@@ -918,3 +918,38 @@ Proof.
   do 9 (split; [vm_compute; reflexivity|]). split; [exact (ext_link_is_find 100 6)|]. split; [vm_compute; reflexivity|].
   apply lit_find_ptr_ok. constructor.
 Qed.
+
+(* ---- the loop-side half of the GENERAL path (coq/TrCmp14Ext.v).  find_oracle_ctx still asks for the exact result memory `upd m offs blk'`:
+   true of the literal path, which allocates nothing; the general path (rset_find -> regexec) leaves regexec's local state and saved states
+   behind as new blocks and subs[] as a freed block (TrRsetFindRx.tr_rset_find_model), so NO statement with an exact result memory can hold of it.
+   TrCmp14Ext.find_oracle_ext lets the result memory EXTEND m (grows: at least as long, every block of m other than offs unchanged, offs holds
+   the 32 answers); C14_tr_subst_line_ext is C14_tr_subst_line under that hypothesis -- the weakest of the three (C14_tr_oracle_ctx_is_ext).
+   The matcher-side half (rset_find at an OFFSET of the line's block, the compiled program carried along the growing memory) is open. *)
+From NV Require Import TrCmp14Ext.
+Local Open Scope Z_scope.
+Theorem C14_tr_subst_line_ext : forall ext find (m0 : mem) bl bo bsp bs rb rz fo (line rep flags : bytes) d fuel a0 a1 a2 a3 a6 a7 a8 a9 a11,
+  str_at m0 bl line -> nonul line -> Z.of_nat (length line) <= 500000000 ->
+  cstr_in m0 G_xrep 0 rep -> nonul rep ->
+  nth_error m0 bsp = Some [VPtr bs fo] -> cstr_in m0 bs fo flags -> nonul flags ->
+  (bo < length m0)%nat -> (exists blk0, nth_error m0 bo = Some blk0 /\ length blk0 = 32%nat) ->
+  bl <> bo /\ G_xrep <> bo /\ bsp <> bo /\ bs <> bo ->
+  find_oracle_ext ext find m0 bl bo rb rz line -> find_ptr_ok find line rep ->
+  forall lv, (S (length line) <= fuel)%nat -> (length rep < fuel)%nat ->
+  let st o r l m := mkst [a0; a1; a2; a3; VPtr rb rz; VPtr bo 0; a6; a7; a8; a9; VPtr bsp 0; a11; VPtr bl (Z.of_nat o); r; l] m in
+  match subst_line find rep (has_g flags) line with
+  | Unchanged =>
+      exists lv' mk', exec (callx ext cprog fuel (S (S (S d)))) fuel es_while (st 0%nat (VInt 0) lv m0)
+                      = ONormal (st 0%nat (VInt 0) lv' mk') /\ Ctx m0 bo mk'
+  | Changed new =>
+      Z.of_nat (length new) <= 500000000 ->
+      exists o' p lv' mk' cells,
+        exec (callx ext cprog fuel (S (S (S d)))) fuel (SSeq es_while es_str) (st 0%nat (VInt 0) lv m0)
+        = ONormal (st o' (VPtr p 0) lv' mk') /\ Ctx m0 bo mk' /\ Rinv m0 mk' p cells /\ map byte_of cells = new
+  | SOOB | SFuel => True
+  end.
+Proof. exact subst_line_ok_e. Qed.
+Print Assumptions C14_tr_subst_line_ext.
+Theorem C14_tr_oracle_ctx_is_ext : forall ext find m0 bl bo rb rz line,
+  find_oracle_ctx ext find m0 bl bo rb rz line -> find_oracle_ext ext find m0 bl bo rb rz line.
+Proof. exact find_oracle_ctx_ext. Qed.
+Print Assumptions C14_tr_oracle_ctx_is_ext.
